@@ -35,6 +35,7 @@ def run(prog, tier):
     check_table(R, prog)
     check_exceptions(R, prog, eff)
     check_verdict(R, prog)
+    check_argv(R, prog)
     return R
 
 
@@ -167,9 +168,19 @@ def possibly_undefined(fi):
 def check_exceptions(R, prog, eff):
     ss = prog.func(MOD, "sat_solve")
     n = 0
-    for cls, site in sorted(eff.escapes(ss).items()):
+    # escapes() keeps one representative site per class and function: look at sat_solve and at each function it is made of, so that
+    # a second source of the same class (Popen next to open) is not hidden behind the first
+    todo = [(ss, cls, site) for cls, site in sorted(eff.escapes(ss).items())]
+    for q in list(IFACES) + ["some_solver_installed"]:
+        fq = prog.func(MOD, q)
+        todo += [(fq, cls, site) for cls, site in sorted(eff.escapes(fq).items()) if site.fi.module.name == MOD and cls not in ("RuntimeError", "ValueError", "TypeError")]
+    seen = set()
+    for owner, cls, site in todo:
+        if (cls, id(site.node)) in seen:
+            continue
+        seen.add((cls, id(site.node)))
         n += 1
-        inst = "sat_solve may raise %s (%s)" % (cls, site.what[:50])
+        inst = "%s may raise %s (%s)" % (owner.qualname, cls, site.what[:50])
         if set(ancestors(cls)) & DOCUMENTED:
             R.ok("SOLVER-EXC", inst, site.where())
         elif cls in ("OSError",) and "parsedimacs" in site.fi.module.name:
@@ -257,3 +268,53 @@ def check_verdict(R, prog):
             R.ok("VERDICT", "%s: `s SATISFIABLE` -> True, `s UNSATISFIABLE` -> False, no answer -> RuntimeError" % q, fi.key)
         else:
             R.bad(F("VERDICT", fi, "%s solution line" % q, "the `s` line decides the verdict; without an answer RuntimeError must be raised"))
+
+
+def check_argv(R, prog):
+    """ARGV-ELEMENT: the solver is started with an argument vector in which every temporary file name is an element of its own.  A
+    command *string* that contains a file name and is then split at blanks tears a path with a blank in it (TMPDIR = "My Files"):
+    the solver gets two non-existing files and the run ends in RuntimeError instead of a verdict."""
+    n = 0
+    for q in IFACES:
+        fi = prog.func(MOD, q)
+        tmp = set()
+        for st in stmts_in(fi.node):
+            if isinstance(st, ast.Assign) and isinstance(st.value, ast.Call) and (call_name(st.value) or "").endswith("NamedTemporaryFile"):
+                tmp |= {t.id for t in st.targets if isinstance(t, ast.Name)}
+            if isinstance(st, ast.With):
+                for it in st.items:
+                    if isinstance(it.context_expr, ast.Call) and (call_name(it.context_expr) or "").endswith("NamedTemporaryFile") and \
+                            isinstance(it.optional_vars, ast.Name):
+                        tmp.add(it.optional_vars.id)
+
+        def has_path(e, tainted):
+            for x in ast.walk(e):
+                if isinstance(x, ast.Attribute) and x.attr == "name" and isinstance(x.value, ast.Name) and x.value.id in tmp:
+                    return True
+                if isinstance(x, ast.Name) and x.id in tainted:
+                    return True
+            return False
+        tainted = set()
+        changed = True
+        while changed:
+            changed = False
+            for st in stmts_in(fi.node):
+                if isinstance(st, ast.Assign) and len(st.targets) == 1 and isinstance(st.targets[0], ast.Name) and \
+                        st.targets[0].id not in tainted and st.targets[0].id not in tmp and has_path(st.value, tainted) and \
+                        not (isinstance(st.value, ast.Call) and call_name(st.value) == "open"):
+                    tainted.add(st.targets[0].id)
+                    changed = True
+        for c in [x for x in walk_shallow(fi.node) if isinstance(x, ast.Call) and (call_name(x) or "") in ("subprocess.Popen", "subprocess.run", "Popen")]:
+            args = [k.value for k in c.keywords if k.arg == "args"] or c.args[:1]
+            if not args:
+                continue
+            n += 1
+            torn = [x for x in ast.walk(args[0]) if isinstance(x, ast.Call) and method_name(x) == "split" and has_path(x.func.value, tainted)]
+            if torn:
+                R.bad(F("ARGV-ELEMENT", fi, "%s splits a command string that contains a file name" % q,
+                        "`%s` splits text that contains the name of a temporary file at blanks: with a blank in the temporary directory the "
+                        "solver is handed pieces of the path and sat_solve raises RuntimeError instead of returning the verdict"
+                        % src(torn[0])[:70], torn[0]))
+            else:
+                R.ok("ARGV-ELEMENT", "%s: %s -- file names are separate argv elements" % (q, src(args[0])[:60]), fi.key)
+    R.floor("ARGV-ELEMENT", n, 3)
